@@ -415,9 +415,20 @@ def c10(c):
         (6, 'FORM(6, "g", "copy_memory_or_grant_access with a char buffer (control)") { char buf[8] = "control"; bool c = false; auto t = copy_memory_or_grant_access(e.sb, buf, 8, false, c); (void)t; }'),
         (7, 'FORM(7, "g", "copy_and_verify_range on a data pointer (control)") { auto p = mf::Wd::tptr<int>(e.sb, 4096); p.copy_and_verify_range([](std::unique_ptr<int[]>) { return 0; }, 4); }'),
     ]
+    # valid requests that every version of the library accepted (wchar_t is a documented element type of the copy helpers; a struct
+    # that is not described to RLBox can still be allocated and handed around): controls, they must stay programs and do their work
+    WCHK = 'if (!t) throw std::runtime_error("null"); for (int i = 0; i < 4; i++) if (t[i].UNSAFE_unverified() != buf[i]) throw std::runtime_error("wchar_t element differs");'
+    c10forms += [
+        (8, 'FORM(8, "g", "copy_memory_or_grant_access with a wchar_t buffer (control)") { wchar_t buf[4] = { L\'a\', L\'b\', 0x1234, 0 }; bool c = false; auto t = copy_memory_or_grant_access(e.sb, buf, 4, false, c); ' + WCHK + ' }'),
+        (9, 'FORM(9, "g", "malloc_in_sandbox<wchar_t> then copy_and_verify_range / copy_and_verify / unverified_safe_pointer_because (control)") { auto p = e.sb.malloc_in_sandbox<wchar_t>(4); if (!p) throw std::runtime_error("null"); for (int i = 0; i < 4; i++) p[i] = static_cast<wchar_t>(L\'a\' + i); wchar_t got = 0; p.copy_and_verify_range([&](std::unique_ptr<wchar_t[]> v) { got = v[2]; return 0; }, 4); wchar_t one = p.copy_and_verify([](std::unique_ptr<wchar_t> v) { return *v; }); auto raw = p.unverified_safe_pointer_because(4, "control"); if (got != L\'c\' || one != L\'a\' || !raw) throw std::runtime_error("wchar_t content differs"); }'),
+        (10, 'FORM(10, "g", "copy_memory_or_deny_access with a tainted wchar_t buffer (control)") { auto p = e.sb.malloc_in_sandbox<wchar_t>(4); for (int i = 0; i < 4; i++) p[i] = static_cast<wchar_t>(L\'k\' + i); bool c = false; wchar_t* out = copy_memory_or_deny_access(e.sb, p, 4, false, c); if (!out || out[3] != L\'n\') throw std::runtime_error("wchar_t content differs"); if (c) free(out); }'),
+        (11, 'FORM(11, "g", "malloc_in_sandbox of a struct that is not described to RLBox (control)") { struct Ctx { int a; char b; double d; }; auto p = e.sb.malloc_in_sandbox<Ctx>(2); auto q = e.sb.malloc_in_sandbox<Ctx>(); if (!p || !q) throw std::runtime_error("null"); uintptr_t a = reinterpret_cast<uintptr_t>(p.UNSAFE_unverified()), b = reinterpret_cast<uintptr_t>(q.UNSAFE_unverified()); if (b - a < 2 * sizeof(Ctx) && a - b < sizeof(Ctx)) throw std::runtime_error("allocations overlap"); e.sb.free_in_sandbox(p); e.sb.free_in_sandbox(q); }'),
+    ]
     c10forms = c10forms[3:] + c10forms[:3]  # the forms that may end in a fatal sanitizer report run last
     units.append(dict(name="c10_forms_wide", kind="forms", build="asan0", defs=EXC + ['MF_PROP="C10"', "MF_CFG=vsbx_wide"], preamble=pre, forms=c10forms))
     runs.append(dict(unit="c10_forms_wide", label="c10_forms[wide]"))
+    units.append(dict(name="c10_forms_ilp32", kind="forms", build="asan0", defs=EXC + ['MF_PROP="C10"', "MF_CFG=vsbx_ilp32"], preamble=pre, forms=c10forms))
+    runs.append(dict(unit="c10_forms_ilp32", label="c10_forms[ilp32]"))
     if c.thorough:
         units.append(dict(name="c10_ilp32f", srcs=[D + "c10_bulk.cpp"], build="asan0",
                           defs=EXC + ["CFG=vsbx_ilp32f", "RLBOX_USE_STATIC_CALLS()=rlbox_noop_sandbox_lookup_symbol"]))
